@@ -164,7 +164,7 @@ Definition P_C14_replicas (ls : list lid) (log : outs) (final : dmap) : bool :=
 Fixpoint ins_out (e : lid * msg) (l : outs) : outs :=
   match l with
   | [] => [e]
-  | x :: r => if N.ltb (fst e) (fst x) then e :: l else x :: ins_out e r
+  | x :: r => if N.leb (fst e) (fst x) then e :: l else x :: ins_out e r
   end.
 Definition sort_outs (l : outs) : outs := fold_right ins_out [] l.
 
@@ -204,8 +204,9 @@ Definition obs_eqb (a b : obs) : bool :=
    mode 0 : sequential history; the implementation's observations are compared
             step by step with the model of the repaired code and judged by P_C14
    mode 1 : judged by P_C14 only
-   mode 2 : concurrent run, one entry (OAdvance 0, (_, log, final)); the ids
-            of the listeners are those that occur in the log; P_C14_replicas only
+   mode 2 : concurrent run: entries (OAddL l, _) name the listeners that are
+            joined, one entry (OAdvance 0, (_, log, final)) carries a consistent
+            cut; P_C14_replicas only
    verdict codes: 1 model <> implementation, 2 P_C14 false on the
    implementation's trace, 3 reflect.DeepEqual <> json_eqb (extra file) *)
 Definition case := (N * N * trace)%type.
@@ -219,18 +220,16 @@ Fixpoint first_diff (i : N) (s : state) (tr : trace) : option N :=
       if obs_eqb ob (ret, sort_outs ms, data s') then first_diff (N.succ i) s' r else Some i
   end.
 
-Fixpoint nodup_lids (l : list lid) : list lid :=
-  match l with
-  | [] => []
-  | x :: r => if existsb (N.eqb x) r then nodup_lids r else x :: nodup_lids r
-  end.
-
 Definition judge (c : case) : list (N * N * N) :=
   let '(id, mode, tr) := c in
   match mode with
   | 2%N =>
-      flat_map (fun e => let '(_, (_, log, final)) := e in
-                  if P_C14_replicas (nodup_lids (map fst log)) log final then [] else [(id, 2%N, 0%N)]) tr
+      let ls := flat_map (fun e => match fst e with OAddL l => [l] | _ => [] end) tr in
+      flat_map (fun e => match e with
+                         | (OAdvance _, (_, log, final)) =>
+                             if P_C14_replicas ls log final then [] else [(id, 2%N, 0%N)]
+                         | _ => []
+                         end) tr
   | _ =>
       (match mode with
        | 0%N => match first_diff 0 init tr with Some i => [(id, 1%N, i)] | None => [] end
